@@ -69,6 +69,17 @@ CHECKS = {
               "the listed ones. An independent Python encoder written from the RFCs (all handshake messages, 30+ extension "
               "classes, SSL 2.0) is compared byte for byte with compose() of generated objects and its output parsed back."),
         design='§6 C06', note=CLS_NOTE + " The Spec encoders are a reading of the RFCs (trusted)."),
+    'C13': dict(
+        technique='Lean 4 proof over the regenerated table of attrs defaults (ownership model) + runtime monitors for observer purity and buffer aliasing on the real code',
+        text=("(b) proved: in the ownership model, if no field stores its class-level default object then an in-place edit "
+              "through one default-constructed instance is invisible through every other instance and leaves the defaults "
+              "untouched (no_shared_state); the table of all 145 defaulted attrs fields is regenerated from the live classes "
+              "and the fields that still share are proved to be exactly the four Set-Cookie flag components (known finding). "
+              "(a) observers are functions in the model; on the real code every observer is called twice in shuffled order on "
+              "generated objects, incl. client hellos whose compose fails at the size bound, and a deep canonical rendering "
+              "before/after is compared. (c) aliasing of caller buffers is Python object identity: monitored only (parse from "
+              "a bytearray, overwrite/truncate it, compare; parse_mutable vs parse_immutable)."),
+        design='§6 C13', note=COMMON_NOTE + " (a) and (c) are runtime monitoring on the implementation, not proof obligations."),
     'C15': dict(
         technique='Lean 4: full statement refuted by kernel-checked witnesses, section-level theorems against the published definition + JA3 from wire bytes (Lean spec and independent Python) vs implementation',
         text=("ja3() is modelled over the parsed ClientHello; the published definition is written as a Lean function of the "
